@@ -2060,6 +2060,63 @@ func mayReturnNonFalse(fn *ssa.Function, depth int) ssa.Instruction {
 	return bad
 }
 
+// mayReturnNonFalseFr: the same on a call chain: a result handed on from a function value
+// (an adapter `func(…) bool { return op(r) }`) is that of the closure the chain binds to it.
+func mayReturnNonFalseFr(fr *Frame, depth int) ssa.Instruction {
+	fn := fr.Fn
+	if fn == nil || fn.Blocks == nil {
+		return nil
+	}
+	if depth > 5 {
+		return fn.Blocks[0].Instrs[0]
+	}
+	var bad ssa.Instruction
+	seen := map[ssa.Value]bool{}
+	var isFalse func(v ssa.Value) bool
+	isFalse = func(v ssa.Value) bool {
+		if seen[v] {
+			return true
+		}
+		seen[v] = true
+		switch x := v.(type) {
+		case *ssa.Const:
+			return x.Value != nil && x.Value.ExactString() == "false"
+		case *ssa.Phi:
+			for _, e := range x.Edges {
+				if !isFalse(e) {
+					return false
+				}
+			}
+			return true
+		case *ssa.Call:
+			if x.Common().IsInvoke() {
+				return false
+			}
+			if g := x.Common().StaticCallee(); g != nil {
+				if g.Blocks == nil || g.Signature.Results().Len() != 1 {
+					return false
+				}
+				return mayReturnNonFalseFr(&Frame{Fn: g, Parent: fr, Call: x, Depth: frameDepth(fr) + 1}, depth+1) == nil
+			}
+			mc, g, creator := resolveClosure(x.Common().Value, fr, 0)
+			if g == nil || g.Blocks == nil || g.Signature.Results().Len() != 1 || onChain(fr, g) {
+				return false
+			}
+			return mayReturnNonFalseFr(&Frame{Fn: g, Parent: creator, MC: mc, Call: x, ArgsFr: fr, Depth: frameDepth(fr) + 1}, depth+1) == nil
+		}
+		return false
+	}
+	for _, ret := range returnsOf(fn) {
+		if len(ret.Results) != 1 {
+			continue
+		}
+		if !isFalse(ret.Results[0]) && bad == nil {
+			bad = ret
+		}
+	}
+	return bad
+}
+
 // c13DequeueRule: the per-entry dequeue obligations (Q1) for the block-handler work lists
 // selected by only (nil: all of them). Shared with C08 (service lists) and C18 (random).
 func (cx *Ctx) c13DequeueRule(r *Report, get func(Entry) *c13Walk, only func(q c13Queue) bool) {
@@ -2326,7 +2383,7 @@ func (cx *Ctx) c13DequeueRule(r *Report, get func(Entry) *c13Walk, only func(q c
 				}
 				if stopProto {
 					for _, cf := range bodies {
-						if at := mayReturnNonFalse(cf.Fn, 0); at != nil {
+						if at := mayReturnNonFalseFr(cf, 0); at != nil {
 							early = cx.P.Pos(at.Pos()) + " (the per-entry callback can ask the iteration to stop)"
 						}
 					}
